@@ -51,6 +51,10 @@ func SQLiteDSN(filename string, fileScheme, memory bool) string {
 		"_busy_timeout": []string{"10000"},
 		// we need BEGIN IMMEDIATE for several use cases to work
 		"_txlock": []string{"immediate"},
+		// LIKE is case-insensitive in SQLite by default, unlike PostgreSQL: a
+		// name-prefix match must not see another project's resources whose
+		// names differ only by case
+		"_cslike": []string{"true"},
 	}
 	if memory {
 		// memory mode needs either shared cache, or single connection. shared cache
